@@ -214,9 +214,15 @@ def write_coqproject():
 
 
 def vo_ok(rel_v):
+    """The .vo exists and is up to date with respect to its source AND everything it depends on."""
     v = os.path.join(COQ, rel_v)
     vo = v[:-2] + ".vo"
-    return os.path.exists(vo) and os.path.getmtime(vo) >= os.path.getmtime(v)
+    if not (os.path.exists(vo) and os.path.getmtime(vo) >= os.path.getmtime(v)):
+        return False
+    if not os.path.exists(os.path.join(COQ, "Makefile")):
+        return True
+    rc, _, _ = run(["make", "-q", rel_v[:-2] + ".vo"], cwd=COQ, timeout=300)
+    return rc == 0
 
 
 # ---------------------------------------------------------------------------
